@@ -450,31 +450,32 @@ type LoopContract struct {
 }
 
 type FuncContract struct {
-	Atomic   []string // captured variables that may only be accessed through sync/atomic
-	Guarded  []Clause // Label = "Type.field", E = mutex expression: lock discipline
-	Rely     []Clause // two-state relation every interference step of other goroutines satisfies
-	Shared   []string // ghost fields other goroutines may change (havocked at yield points under Rely)
-	Uses     []string // lemmas assumed in this function's VC (each discharged on its own)
-	Keeps    []Clause // locations abstracted calls are assumed not to write
-	CbInv    []Clause // `cbinvariant [label] expr`: invariant of the state over the calls a library makes to a callback (pragma callback)
-	Forbid   []Clause // `forbid [label] call <name>`: the function and its closures contain no such call
-	Key      string
-	File     string
-	Line     int
-	Props    []string
-	Returns  []string
-	Requires []Clause
-	Ensures  []Clause
-	Modifies []Clause
-	HasMod   bool
-	Inline   bool
-	Trusted  bool
-	Ghosts   []GhostDecl
-	Loops    map[int]*LoopContract
-	Ats      []*AtClause
-	Pragmas  map[string]string
-	Assumes  []Clause // named, listed assumptions (history-length etc.)
-	Fits     []string // source texts of arithmetic expressions assumed not to overflow
+	Atomic    []string // captured variables that may only be accessed through sync/atomic
+	Guarded   []Clause // Label = "Type.field", E = mutex expression: lock discipline
+	Rely      []Clause // two-state relation every interference step of other goroutines satisfies
+	Shared    []string // ghost fields other goroutines may change (havocked at yield points under Rely)
+	Uses      []string // lemmas assumed in this function's VC (each discharged on its own)
+	DeadExits []string // `deadexit <source text of a return>`: excluded by the preconditions on purpose
+	Keeps     []Clause // locations abstracted calls are assumed not to write
+	CbInv     []Clause // `cbinvariant [label] expr`: invariant of the state over the calls a library makes to a callback (pragma callback)
+	Forbid    []Clause // `forbid [label] call <name>`: the function and its closures contain no such call
+	Key       string
+	File      string
+	Line      int
+	Props     []string
+	Returns   []string
+	Requires  []Clause
+	Ensures   []Clause
+	Modifies  []Clause
+	HasMod    bool
+	Inline    bool
+	Trusted   bool
+	Ghosts    []GhostDecl
+	Loops     map[int]*LoopContract
+	Ats       []*AtClause
+	Pragmas   map[string]string
+	Assumes   []Clause // named, listed assumptions (history-length etc.)
+	Fits      []string // source texts of arithmetic expressions assumed not to overflow
 	// stubs only
 	IsStub  bool
 	Params  []ParamDecl
@@ -518,7 +519,7 @@ var keywords = map[string]bool{
 	"func": true, "stub": true, "property": true, "returns": true, "requires": true, "ensures": true,
 	"modifies": true, "inline": true, "trusted": true, "ghost": true, "loop": true, "invariant": true,
 	"decreases": true, "at": true, "lemma": true, "spec": true, "assume": true, "pragma": true, "axiom": true,
-	"before": true, "ghostfield": true, "uses": true, "keeps": true, "forbid": true, "cbinvariant": true, "rely": true, "shared": true, "guarded": true, "atomic": true,
+	"before": true, "ghostfield": true, "uses": true, "deadexit": true, "keeps": true, "forbid": true, "cbinvariant": true, "rely": true, "shared": true, "guarded": true, "atomic": true,
 }
 
 func firstWord(s string) (string, string) {
@@ -830,6 +831,9 @@ func (sp *Specs) ParseSpecFile(path string) error {
 					return err
 				}
 				cur.CbInv = append(cur.CbInv, c)
+			case "deadexit":
+				cur.DeadExits = append(cur.DeadExits, strings.TrimSpace(rest))
+				sp.Scan = append(sp.Scan, fmt.Sprintf("return declared unreachable under the contract (no reachability cover): %q in %s (%s:%d)", strings.TrimSpace(rest), cur.Key, shortPath(path), l.no))
 			case "forbid":
 				// forbid [label] call Name
 				c := Clause{Text: rest}
